@@ -1,7 +1,7 @@
 """C13 — writes are atomic, acknowledged after commit, log repairable."""
 import re
 import mir
-from mir import term_str, callee_name
+from mir import term_str, callee_name, strip_refs
 
 PBW = "BufferedDatabaseWriter::process_batch_write"
 # WriteMessage variants and whether their arm writes through the connection
@@ -298,6 +298,45 @@ def run(P, C, tier):
             C.ob("R4", "covered:" + v, v in arms_ok and v in arms_err, w.loc(), "variant acknowledged in both the Ok arm and the Err arm", nontrivial=False)
         C.floor("R4", "Ok acknowledgements", n_ok, 12)
         C.floor("R4", "Err acknowledgements", n_err, 12)
+        # R11: a buffer is processed once and then acknowledged
+        C.rule("R11", "applied entirely or not at all, and acknowledged accordingly: a buffer handed to process_batch_write comes straight from the channel "
+                      "(never from a queue of messages that were already processed: a rolled back Node::write has kept the rowid it was given, a second "
+                      "write would UPDATE a row that does not exist and be acknowledged), and after the call every path to the next buffer goes through the "
+                      "match on the batch result that acknowledges each message")
+        buf = strip_refs(w.call_args(pb, expand_vars=False)[0])
+        while buf[0] in ("deref", "ref"):
+            buf = strip_refs(buf[1])
+        srcs = []
+        if buf[0] == "var":
+            for d_ in w.var_defs(buf):
+                c_ = mir.has_call(d_, r"::blocking_recv$|::recv$")
+                srcs.append("recv" if c_ is not None and not mir.has_call(d_, r"(VecDeque|Vec).*::(pop_front|pop_back|pop|remove)$") else term_str(d_)[:60])
+            # phi of several sources shows as several definitions or as one phi term
+            for d_ in w.var_defs(buf):
+                u_ = strip_refs(d_)
+                if u_[0] == "phi":
+                    srcs = ["recv" if (mir.has_call(x, r"::blocking_recv$|::recv$") is not None and mir.has_call(x, r"(VecDeque|Vec).*::(pop_front|pop_back|pop|remove)$") is None) else term_str(x)[:60] for x in u_[1]]
+        only_recv = bool(srcs) and all(x == "recv" for x in srcs)
+        C.ob("R11", "buffer-comes-from-the-channel", only_recv, w.loc(pb), "the buffer processed is %s" % (", ".join(sorted(set(srcs))) or term_str(buf)))
+        re_w = mir.result_edges(w, pb)
+        if re_w is None:
+            C.ob("R11", "acknowledged-after-one-pass", False, w.loc(pb), "the batch result is not matched")
+        else:
+            from rules.rights import enclosing_loop_header as _elh
+            hdrs = set()
+            # loop heads: blocks reachable from pb that reach pb again and dominate it
+            for d_ in w.dom_chain(pb):
+                if d_ != pb and d_ in w.reach_after(pb) and pb in w.reach_after(d_):
+                    hdrs.add(d_)
+            back = set()
+            for h_ in hdrs:
+                for p_ in w.preds().get(h_, []) if isinstance(w.preds(), dict) else w.preds()[h_]:
+                    if p_ in w.reach_after(pb) or p_ == pb:
+                        back.add(h_)
+            r_ = w.reach_after(pb, avoid_blocks={re_w["switch"]})
+            skipped = sorted(h_ for h_ in back if h_ in r_) + sorted(x for x in w.exits() if x in r_)
+            C.ob("R11", "acknowledged-after-one-pass", not skipped, w.loc(pb),
+                 "every path from process_batch_write to the next buffer (or the end of the thread) passes the match on its result: %s" % (not skipped))
     # ---- R5
     try:
         st = P.body("GraphDatabaseService::start")
